@@ -2018,9 +2018,13 @@ def _schema_check(prop, tier):
                        'fresh_diff_bat': obs.get('fresh_diff_bat'),
                        'rows_diff_bat': obs.get('rows_diff_bat'),
                        'pipelines': {k: obs.get(k) for k in ('ref', 'bat', 'evo')}})
+    nx = _c01_cross_app(report, tier, nontrivial) if prop == 'C01' else 0
     report.coverage['distinct_nontrivial'] = len(nontrivial)
     report.coverage['exhaustive'] = (len(recs) == total and herr == 0)
     report.coverage['rule'] = (
+        ('Cross-app family (CrossApp.tla): %d evolutions adding / deleting ForeignKey, OneToOne and ManyToMany '
+         'fields between alpha.Tag, alpha.Item and beta.Tag (same-named models in two apps, relations to '
+         'itself) executed on a real two-app project and compared with a fresh creation.  ' % nx if nx else '') +
         'TLC enumerates every simulation-valid mutation sequence up to the length bound over the start '
         'signatures and alphabets of Optimizer.tla/Schema.tla (relations, unique_together, unique and '
         'indexed columns) and checks SchemaIsFresh / UntouchedTablesEqual / Realisable on the design; '
@@ -2036,6 +2040,75 @@ def _schema_check(prop, tier):
     report.assumptions += ['row values come from a fixed palette incl. NULL, empty string, quotes, percent signs, negative numbers',
                            'a fresh-creation oracle is used only if the rendered models have an empty diff with the evolved signature']
     return report.finish()
+
+
+def _c01_cross_app(report, tier, nontrivial):
+    """C01 across two apps (CrossApp.tla): relation fields between two apps, two of whose models
+    carry the same name, added / deleted by evolutions; evolved schema against a fresh creation."""
+    import random
+    from concurrent.futures import ThreadPoolExecutor
+    from .common import seed
+    from .engines import crossapp as X
+    from .tlc import run_tlc, require_ok, write_cfg
+    cfg = write_cfg('MC_CrossApp.cfg', '''
+SPECIFICATION Spec
+CONSTANTS
+  MaxLen = 2
+  EmitRecords = TRUE
+CONSTRAINT Constraint
+INVARIANT SchemaIsFresh
+INVARIANT NoClash
+''')
+    res = require_ok(run_tlc('CrossApp', cfg, workers=8, timeout=3000), 'CrossApp.tla')
+    report.add_tlc('CrossApp MaxLen=2 (relations between alpha.Tag, alpha.Item, beta.Tag)', res.stats())
+    rng = random.Random(seed() * 911 + 1)
+    strata = {}
+    for r in res.records:
+        shape = tuple((st['k'], st['kind'], st['src'][0] != st['dst'][0], st['src'][1] == st['dst'][1],
+                       st['src'] == st['dst']) for st in r['seq'])
+        strata.setdefault(shape, []).append(r)
+    keys = sorted(strata, key=repr)
+    rng.shuffle(keys)
+    for k in keys:
+        rng.shuffle(strata[k])
+    # relations between the two same-named models first: that is where the naming rules differ
+    keys.sort(key=lambda k: not any(st[2] and st[3] for st in k))
+    limit = 100 if tier == 'quick' else max(len(keys), 600)
+    chosen = []
+    while len(chosen) < limit and any(strata[k] for k in keys):
+        for k in keys:
+            if strata[k] and len(chosen) < limit:
+                chosen.append(strata[k].pop())
+    with ThreadPoolExecutor(12) as ex:
+        observations = list(ex.map(X.replay, chosen))
+    for rec, obs in zip(chosen, observations):
+        report.coverage['evaluations'] += 1
+        label = ['%s %s.%s.%s %s -> %s.%s' % (st['k'], st['src'][0], st['src'][1], st['name'], st['kind'],
+                                            st['dst'][0], st['dst'][1]) for st in rec['seq']]
+        if obs.get('setup_error') or obs.get('fresh_error'):
+            report.notes.append('cross-app family: project not installable: %s'
+                                % (obs.get('setup_error') or obs.get('fresh_error')))
+            continue
+        report.coverage['traces_validated_against_impl'] += 1
+        nontrivial.add('xapp:' + repr(label))
+        fp = {'family': 'cross-app', 'kinds': sorted(set(st['kind'] for st in rec['seq'])),
+              'same_name_other_app': any(st['src'][1] == st['dst'][1] and st['src'][0] != st['dst'][0]
+                                         for st in rec['seq'])}
+        detail = {'evolution': label, 'outcome': obs.get('outcome'), 'error': obs.get('error'),
+                  'statements': obs.get('statements')}
+        if obs.get('outcome') != 'ok':
+            report.fail(dict(fp, **{'class': 'accepted-evolution-failed-to-execute'}), detail)
+            continue
+        if obs.get('diff'):
+            report.fail(dict(fp, **{'class': 'schema-differs-from-fresh',
+                                    'diff_kinds': sorted(set(d_.get('kind') for d_ in obs['diff']))}),
+                        dict(detail, diff=obs['diff'][:8]))
+        if obs.get('fk_check'):
+            report.fail(dict(fp, **{'class': 'foreign-key-check-failed'}), dict(detail, fk_check=obs['fk_check']))
+        if obs.get('spec_vs_django'):
+            report.spec_drift('CrossApp.tla names the relation columns otherwise than Django for %s' % label,
+                              obs['spec_vs_django'])
+    return len(chosen)
 
 
 def c01(tier, replay=None):
